@@ -312,6 +312,11 @@ func (in *Interp) slice(x, lo, hi, step starlark.Value, pos syntax.Position) (st
 			return nil, in.errAt(pos, "slice", "zero is not a valid slice step")
 		}
 		st = v
+		if m := max(n, 1); st > m {
+			st = m
+		} else if st < -m {
+			st = -m
+		}
 	}
 	norm := func(v starlark.Value, def int) (int, error) {
 		if v == starlark.None {
@@ -378,14 +383,13 @@ func satInt(v starlark.Value) (int, error) {
 	if !ok {
 		return 0, fmt.Errorf("got %s, want int", v.Type())
 	}
-	const limit = math.MaxInt / 2
-	if n, ok := i.Int64(); ok && n >= -limit && n <= limit {
+	if n, ok := i.Int64(); ok && int64(int(n)) == n && int(n) != math.MinInt {
 		return int(n), nil
 	}
 	if i.Sign() < 0 {
-		return -limit, nil
+		return -math.MaxInt, nil
 	}
-	return limit, nil
+	return math.MaxInt, nil
 }
 
 // ---- comprehensions ----
